@@ -81,20 +81,21 @@ theorem value_update_is_processFrame (w : W) (ct : Slock.Value.CmdType) (c : Cmd
     (h : processFrame (frameCtx w.k ct c) w.k.cell f = .ok cell') :
     (w.procData ct c (some f) rid).k.cell = cell' := (procData_spec w ct c f rid cell' h).1
 
-/-- after an accepted re-lock carrying frame `f` the database shows `processFrame` of the previous cell (`locked` counts the new level) -/
+/-- after an accepted re-lock carrying frame `f` the database shows `processFrame` of the previous cell (`locked` counts the new level);
+no queued request to wake (since the C04 fix a wake pass follows the reply: a request it grants applies its own frame) -/
 theorem relock_value (db : DB) (c : Cmd) (data : Option Bytes) (h : Nat) (f : Bytes) (cell' : Option Cell)
-    (hb : classifyLock db c data = .relock h) (hf : frameOf c data = some f)
+    (hb : classifyLock db c data = .relock h) (hw : (db.getKey c.key).waited = false) (hf : frameOf c data = some f)
     (hp : processFrame (ctxAt (db.getKey c.key) ((db.getKey c.key).locked + 1) .lock c) (db.getKey c.key).cell f = .ok cell') :
     vstrip ((opLock db c data).1.getKey c.key).cell = vstrip cell' := by
-  unfold opLock; rw [hb]; exact Slock.Engine2.relock_value db c data h f cell' hf hp
+  unfold opLock; rw [hb]; exact Slock.Engine2.relock_value db c data h f cell' hw hf hp
 
-/-- … after an accepted update -/
+/-- … after an accepted update (no queued request to wake) -/
 theorem update_value (db : DB) (c : Cmd) (data : Option Bytes) (h : Nat) (f : Bytes) (cell' : Option Cell)
-    (hb : classifyLock db c data = .update h) (hf : frameOf (lockCmdOf (db.getKey c.key) c (.update h)) data = some f)
+    (hb : classifyLock db c data = .update h) (hw : (db.getKey c.key).waited = false) (hf : frameOf (lockCmdOf (db.getKey c.key) c (.update h)) data = some f)
     (hp : processFrame (ctxAt (db.getKey c.key) (db.getKey c.key).locked .lock (lockCmdOf (db.getKey c.key) c (.update h)))
       (db.getKey c.key).cell f = .ok cell') :
     vstrip ((opLock db c data).1.getKey c.key).cell = vstrip cell' := by
-  unfold opLock; rw [hb]; exact Slock.Engine2.update_value db c data h f cell' hf hp
+  unfold opLock; rw [hb]; exact Slock.Engine2.update_value db c data h f cell' hw hf hp
 
 /-- … after an unlock of one level (no queued request to wake) -/
 theorem unlock_value (db : DB) (c : Cmd) (data : Option Bytes) (h : Nat) (c' : Cmd) (f : Bytes) (cell' : Option Cell)
